@@ -107,21 +107,23 @@ def compile_obj(src, variant="plain", extra=(), lang=None):
 
 
 def compile_many(srcs, variant="plain", extra=()):
-    """compile a list of sources; cache hits are resolved serially, misses compiled in parallel"""
+    """compile a list of sources; cache hits are resolved serially, misses compiled in parallel.
+    A source may be a path or a (path, [extra flags for this source only]) pair."""
     headers_digest()
+    items = [(s, tuple(extra)) if isinstance(s, str) else (s[0], tuple(extra) + tuple(s[1])) for s in srcs]
     res = {}
     todo = []
-    for s in srcs:
-        o = _obj_path(s, variant, extra)[0]
+    for it in items:
+        o = _obj_path(it[0], variant, it[1])[0]
         if os.path.exists(o):
-            res[s] = o
+            res[it] = o
         else:
-            todo.append(s)
+            todo.append(it)
     if todo:
         with cf.ThreadPoolExecutor(16) as ex:
-            for s, o in zip(todo, ex.map(lambda x: compile_obj(x, variant, extra), todo)):
-                res[s] = o
-    return [res[s] for s in srcs]
+            for it, o in zip(todo, ex.map(lambda x: compile_obj(x[0], variant, x[1]), todo)):
+                res[it] = o
+    return [res[it] for it in items]
 
 
 def repo_sources():
@@ -177,13 +179,13 @@ def _prune(libroot, variant, keep, nkeep=8):
         shutil.rmtree(d, ignore_errors=True)
 
 
-def build_harness(name, sources, variant="plain", extra=(), link_lib=True, libs=()):
+def build_harness(name, sources, variant="plain", extra=(), link_lib=True, libs=(), ldflags=()):
     """compile and link a harness executable from /verif/harness sources (+ optional repo sources)"""
     lib = build_lib(variant) if link_lib else None
     lk = _lock()
     try:
         objs = compile_many(sources, variant, extra)
-        key = _sha(*(objs + [lib or ""] + list(libs)))
+        key = _sha(*(objs + [lib or ""] + list(libs) + list(ldflags)))
         bdir = os.path.join(CACHE, "bin", variant)
         os.makedirs(bdir, exist_ok=True)
         exe = os.path.join(bdir, name + "." + key)
@@ -194,7 +196,7 @@ def build_harness(name, sources, variant="plain", extra=(), link_lib=True, libs=
                 cmd.insert(1, "-fsanitize=address,undefined")
             if lib:
                 cmd += [lib, "-Wl,-rpath," + os.path.dirname(lib)]
-            cmd += list(libs) + ["-lm", "-lpthread", "-ldl"]
+            cmd += list(libs) + list(ldflags) + ["-lm", "-lpthread", "-ldl"]
             r = subprocess.run(cmd, capture_output=True, text=True)
             if r.returncode != 0:
                 raise BuildError("harness link failed: %s\n%s" % (name, r.stderr[-4000:]))
